@@ -98,3 +98,10 @@ package store
 //@ func (*Store).Has(s, ctx, hash)
 //@   props C04
 //@   ensures [C04] membership: result1 == nil && result0 ==> hcHas[hexStr(hash)] || has(s.pending.heights, hexStr(hash)) || dsHas[kHash(hash)]
+
+//@ func (*batch).DeleteRange(b, from, to)
+//@   props C04, C08
+//@   modifies MH_Int_Hdr_has, MH_Str_Int_has
+//@   ensures [C08] headers-removed: forall h uint64 @ has(b.headers, h) :: has(b.headers, h) <==> (old(has(b.headers, h)) && !(from <= h && h < to))
+//@   ensures [C08] heights-removed: forall x string @ has(b.heights, x) :: has(b.heights, x) <==> (old(has(b.heights, x)) && !(from <= b.heights[x] && b.heights[x] < to))
+//@   ensures [C04] still-consistent: old(batchOK(b)) ==> batchOK(b)
